@@ -113,3 +113,60 @@ func ruleT3(c *an.Ctx) {
 	}
 	c.Floor("T3", "wrap-in-map sites (MapDim = ArrayDim + 1)", n, 4)
 }
+
+// T4: a merge whose element count is only known at run time is never a constant.  The runtime
+// (TopNode.resolve) hands an expression to the stage verbatim when neither HasRef() nor HasSplit()
+// holds; a MergeExp over a source of unknown length with a constant value and no fork node would be
+// serialised as an expression object instead of the array / map the parameter type demands.
+// Necessary condition: (*MergeExp).HasRef may return the value's own HasRef() only on paths where
+// KnownLength() of the merge source was tested and true; all other returns are the constant true.
+func ruleT4(c *an.Ctx) {
+	fn := c.NeedFunc(pkgSyntax, "(*MergeExp).HasRef")
+	if fn == nil {
+		return
+	}
+	n := 0
+	an.Instrs(fn, func(in ssa.Instruction) {
+		ret, ok := in.(*ssa.Return)
+		if !ok || len(ret.Results) != 1 {
+			return
+		}
+		v := an.RetVal(ret, 0)
+		var vals []ssa.Value
+		if phi, ok := v.(*ssa.Phi); ok {
+			vals = append(vals, phi.Edges...)
+		} else {
+			vals = []ssa.Value{v}
+		}
+		for i, e := range vals {
+			if cv, isC := an.ConstVal(e); isC && cv.String() == "true" {
+				continue
+			}
+			n++
+			// the instruction whose dominance is tested: the definition of e if it is an instruction, else the return
+			site := ssa.Instruction(ret)
+			if ei, ok := e.(ssa.Instruction); ok {
+				site = ei
+			}
+			g, w := an.GuardedBy(site, func(r an.Rel) bool {
+				if r.Op != token.ILLEGAL || !r.Truth {
+					return false
+				}
+				call, ok := r.X.(*ssa.Call)
+				if !ok {
+					return false
+				}
+				name := ""
+				if call.Call.IsInvoke() {
+					name = call.Call.Method.Name()
+				} else if f := call.Call.StaticCallee(); f != nil {
+					name = f.Name()
+				}
+				return name == "KnownLength"
+			})
+			c.Check("T4", fmt.Sprintf("merge-of-unknown-length-has-ref(result %d)@(*MergeExp).HasRef", i), site.Pos(), g,
+				"HasRef may delegate to the merged value only where KnownLength() was tested and true: the runtime passes an expression without references to the stage verbatim, so a merge over a run-time length with a constant value would reach the stage as an expression object, not as the array/map its type demands; "+c.WitnessString(w))
+		}
+	})
+	c.Floor("T4", "non-constant results of (*MergeExp).HasRef", n, 1)
+}
